@@ -16,7 +16,9 @@ import (
 	"errors"
 	"fmt"
 	"os"
+	"os/exec"
 	"path/filepath"
+	"sort"
 	"strings"
 
 	"ariga.io/atlas/sql/migrate"
@@ -267,8 +269,69 @@ func scenMain(w *out.W, tier, tmpRoot string) int {
 			w.Violation(c.id, "dev-not-handed-back-empty", ctxt+": second session on the untouched empty file")
 		}
 	}
+	catalogueGuard(w)
 	if bad > 0 {
 		return 1
 	}
 	return 0
+}
+
+// ---- catalogue guard (round 5, goal 3): which commands of the binary under test take --dev-url.
+// The session catalogue of the model (sessions_of: validate, lint, diff, schema diff/apply/inspect;
+// Planner.Checkpoint through the API) must cover exactly these; a new command with a dev database
+// makes this stage fail until it is modelled.
+var devURLCatalogue = []string{"migrate diff", "migrate lint", "migrate validate", "schema apply", "schema diff", "schema inspect"}
+
+func helpOf(bin string, args ...string) string {
+	cmd := exec.Command(bin, append(args, "--help")...)
+	cmd.Env = append(os.Environ(), "ATLAS_NO_UPDATE_NOTIFIER=1")
+	b, _ := cmd.CombinedOutput()
+	return string(b)
+}
+
+func subcommands(help string) []string {
+	var l []string
+	in := false
+	for _, ln := range strings.Split(help, "\n") {
+		switch {
+		case strings.HasPrefix(ln, "Available Commands:"):
+			in = true
+		case in && strings.TrimSpace(ln) == "":
+			in = false
+		case in:
+			if f := strings.Fields(ln); len(f) > 0 {
+				l = append(l, f[0])
+			}
+		}
+	}
+	return l
+}
+
+func catalogueGuard(w *out.W) {
+	bin := os.Getenv("ATLAS_BIN")
+	if _, err := os.Stat(bin); err != nil {
+		w.Violation("catalogue", "harness-error", "ATLAS_BIN not found")
+		return
+	}
+	var got []string
+	for _, g := range subcommands(helpOf(bin)) {
+		if g == "help" || g == "completion" {
+			continue
+		}
+		subs := subcommands(helpOf(bin, g))
+		for _, s := range subs {
+			if strings.Contains(helpOf(bin, g, s), "--dev-url") {
+				got = append(got, g+" "+s)
+			}
+		}
+		if len(subs) == 0 && strings.Contains(helpOf(bin, g), "--dev-url") {
+			got = append(got, g)
+		}
+	}
+	sort.Strings(got)
+	w.ImplOnly("catalogue", "commands with --dev-url: "+strings.Join(got, ", "))
+	w.Count(fmt.Sprintf("dev-url-commands/%d", len(got)))
+	if strings.Join(got, ",") != strings.Join(devURLCatalogue, ",") {
+		w.Violation("catalogue", "catalogue-incomplete", "commands taking --dev-url in the binary: ["+strings.Join(got, ", ")+"], modelled: ["+strings.Join(devURLCatalogue, ", ")+"]")
+	}
 }
